@@ -128,6 +128,21 @@ CLAIMED = {
         technique='path-sensitive effect analysis of MIR (abstract interpretation, affine domain) + scanner typestate analysis (static analysis)',
         engine='D+B',
     ),
+    'C12': dict(
+        category='model_checking',
+        text='Claimed in part. The statement quantifies over all 2^n interleavings of next/next_back; it is reduced to an induction whose ingredients are each decided on the code, for paths of ANY length: '
+             '(Lemma F) exhaustive abstract execution (Engine S, parametric start) of next_segment_from + segment_at in product with the segment grammar: from a segment start the forward step returns exactly '
+             'that segment and the next start, and None one past the end; (Lemma B) the same for previous_segment_from in mirror mode (the text before the offset read backwards against the reversed grammar, '
+             'absolute and relative paths): it returns the segment starting at the nearest start below the offset, None at the first; no out-of-bounds index, termination; '
+             '(wiring, MIR shape rules on every CFG path) segments() = Empty iff is_empty() else NonEmpty{self, first_segment_offset(), len+1}; next()/next_back() return None without touching a cursor, or — only under '
+             'offset < back_offset — apply the step to (path, own cursor), store the returned offset into that cursor only and return the returned segment; first_segment_offset / is_absolute / is_empty are the documented tests; '
+             'first(), last(), file_name(), segment_count() are the corresponding steps. The induction over interleavings (DESIGN.md §10.7) is a short pen-and-paper argument over these mechanically checked facts.',
+        design_ref='DESIGN.md §10.7',
+        note='NOT decided: parent / parent_or_empty (directory is covered under C16), normalized_segments().len() (the normalised sequence, as in C09), and the mechanisation of the induction step itself. '
+             'Trusted: Engine S summaries of slice indexing/len; C01 (no "?"/"#" inside a valid path).',
+        technique='abstract interpretation of scanner MIR in product with a specification automaton (parametric-start and reversed-text modes) + MIR shape rules on all CFG paths (static analysis)',
+        engine='S+C',
+    ),
     'C13': dict(
         category='proof',
         text='Exact language inclusions on the compiled automata: every URI-family type ⊆ its IRI twin, full ⊆ reference types, URI family ⊆ ASCII '
@@ -229,7 +244,6 @@ CLAIMED = {
 NOT_YET = 'engine for this property is not built yet in this round (see DESIGN.md §9 delivery order); not claimed until its check exists and passes'
 
 NA = {
-    'C12': 'quantifies over all 2^n interleavings of a double-ended cursor pair and over list-valued queries; needs an array-segment domain that the static engines here do not have (DESIGN.md §5)',
     'C15': 'round-trip equality between run-time values computed by two stack algorithms; no static argument in reach (DESIGN.md §5); its structural clause is checked under C04/C13',
 }
 
@@ -268,7 +282,7 @@ def build():
         'engines': [
             {'name': 'facts', 'path': 'driver/', 'serves_properties': sorted(CLAIMED), 'kind_free_text': 'rustc_private driver: MIR/HIR/instance-graph facts of the current /repo tree'},
             {'name': 'A', 'path': 'iv/aut.py iv/abnf.py iv/lang.py spec/', 'serves_properties': sorted(CLAIMED), 'kind_free_text': 'ABNF → DFA, equivalence / inclusion with shortest witnesses'},
-            {'name': 'S', 'path': 'iv/strscan.py iv/dataurl.py spec/data-url.abnf', 'serves_properties': ['C18'], 'kind_free_text': 'scanner MIR over str/char-iterator API x specification automaton (exhaustive abstract execution)'},
+            {'name': 'S', 'path': 'iv/strscan.py iv/dataurl.py iv/segscan.py spec/data-url.abnf spec/segments.abnf', 'serves_properties': ['C12', 'C18'], 'kind_free_text': 'scanner MIR over str/char-iterator and byte-slice API x specification automaton (exhaustive abstract execution; whole-text, parametric-start and mirror modes)'},
             {'name': 'C', 'path': 'iv/sites.py iv/terms.py iv/mir.py', 'serves_properties': sorted(CLAIMED), 'kind_free_text': 'resolved-program rules over MIR: unsafe-site table, dataflow identity, dominators'},
         ],
         'checks': checks,
